@@ -34,6 +34,8 @@ import (
 
 	"github.com/daeuniverse/dae/common/consts"
 	"github.com/daeuniverse/dae/component/outbound/dialer"
+	"github.com/daeuniverse/dae/config"
+	"github.com/daeuniverse/dae/pkg/config_parser"
 	"github.com/daeuniverse/outbound/netproxy"
 	"github.com/sirupsen/logrus"
 )
@@ -67,8 +69,13 @@ type c15World struct {
 	lastSel  int
 	big      bool
 	lastBest map[int]string
-	st       *VStream
-	stats    *VStats
+	// a second group sharing some of the dialers (own stream, own model world): every report about a
+	// shared dialer must reach the sets of BOTH groups
+	sec    *c15World
+	ownIdx int         // in a second group: index of the dialer only it has (-1: none)
+	secIdx map[int]int // primary dialer index -> index in the second group
+	st     *VStream
+	stats  *VStats
 }
 
 func c15NewDialer(opt *dialer.GlobalOption, name string) *dialer.Dialer {
@@ -106,7 +113,15 @@ func c15NewWorld(st *VStream, stats *VStats, n int, logInfo bool, big bool) *c15
 	return w
 }
 
-func (w *c15World) typeIdx(nt *dialer.NetworkType) int { return nt.Index() - 2 }
+// position of the health domain in StandardHealthKeys order (no assumption on collection slot numbers)
+func (w *c15World) typeIdx(nt *dialer.NetworkType) int {
+	for i, t := range w.types {
+		if t.Index() == nt.Index() {
+			return i
+		}
+	}
+	return -9
+}
 
 func (w *c15World) dialerIdx(d *dialer.Dialer) int {
 	for i, x := range w.dialers {
@@ -148,6 +163,20 @@ func (w *c15World) groupDump() string {
 	return strings.Join(parts, " | ")
 }
 
+// c15ParsePolicy builds the policy the way the configuration does: through the real
+// NewDialerSelectionPolicyFromGroupParam from a group's `policy:` parameter (`min_avg10`, `fixed(3)`).
+func c15ParsePolicy(pol consts.DialerSelectionPolicy, fixedIdx int) DialerSelectionPolicy {
+	var param config.FunctionListOrString = string(pol)
+	if pol == consts.DialerSelectionPolicy_Fixed {
+		param = &config_parser.Function{Name: "fixed", Params: []*config_parser.Param{{Val: strconv.Itoa(fixedIdx)}}}
+	}
+	p, err := NewDialerSelectionPolicyFromGroupParam(&config.Group{Policy: param})
+	if err != nil || p == nil {
+		panic(fmt.Sprintf("policy %v(%d) rejected by the parser: %v", pol, fixedIdx, err))
+	}
+	return *p
+}
+
 func (w *c15World) makeGroup(tol int64, pol consts.DialerSelectionPolicy, fixedIdx int, offs []int64) {
 	w.opt.CheckTolerance = time.Duration(tol)
 	ann := make([]*dialer.Annotation, w.n)
@@ -162,7 +191,7 @@ func (w *c15World) makeGroup(tol int64, pol consts.DialerSelectionPolicy, fixedI
 	}
 	op := fmt.Sprintf("group %d %s %d %s", tol, pol, fixedIdx, offStr)
 	out := VRecover(func() string {
-		w.g = NewDialerGroup(w.opt, "g", w.dialers, ann, DialerSelectionPolicy{Policy: pol, FixedIndex: fixedIdx},
+		w.g = NewDialerGroup(w.opt, "g", w.dialers, ann, c15ParsePolicy(pol, fixedIdx),
 			func(alive bool, nt *dialer.NetworkType, isInit bool) {
 				s := strconv.Itoa(w.typeIdx(nt))
 				if alive {
@@ -225,9 +254,26 @@ func (w *c15World) syncPens(d int) {
 		if v != w.pens[d][t] {
 			w.pens[d][t] = v
 			w.st.Emit(fmt.Sprintf("pen %d %d %d", t, d, v), "ok")
+			w.mirror(d, func(s *c15World, d2 int) { s.st.Emit(fmt.Sprintf("pen %d %d %d", t, d2, v), "ok") })
 			w.stats.Inc("ev.penalty_change")
 		}
 	}
+}
+
+// mirror: the same event as seen by the second group (if the dialer is one of its members)
+func (w *c15World) mirror(d int, f func(s *c15World, d2 int)) {
+	if w.sec == nil {
+		return
+	}
+	if d2, ok := w.secIdx[d]; ok {
+		f(w.sec, d2)
+	}
+}
+
+func (w *c15World) mirrorTold(t, d int, op string) {
+	w.mirror(d, func(s *c15World, d2 int) {
+		s.st.Emit(fmt.Sprintf(op, t, d2), VRecover(func() string { return s.afterTell(t, d2) }))
+	})
 }
 
 func (w *c15World) sample(t, d int, lat int64) {
@@ -236,17 +282,18 @@ func (w *c15World) sample(t, d int, lat int64) {
 		return w.afterTell(t, d)
 	})
 	w.st.Emit(fmt.Sprintf("sample %d %d %d", t, d, lat), out)
+	w.mirrorTold(t, d, "sample %d %d "+strconv.FormatInt(lat, 10))
 	w.syncPens(d)
 }
 
 // probe goes through the REAL Dialer.Check: whether and what the sets are told is decided by the
 // production code; the latency is the one Check measured itself (read back from the collection).
-func (w *c15World) probe(t, d int, outcome int) {
+func (w *c15World) probe(t, d int, outcome int, periodic, resus bool) {
 	var kind string
 	var lat time.Duration
 	var alive bool
 	pre := VRecover(func() string {
-		kind, lat, alive = dialer.VerifC15Probe(w.dialers[d], w.types[t], outcome)
+		kind, lat, alive = dialer.VerifC15Probe(w.dialers[d], w.types[t], outcome, periodic, resus)
 		return ""
 	})
 	if pre != "" {
@@ -254,9 +301,13 @@ func (w *c15World) probe(t, d int, outcome int) {
 		return
 	}
 	w.stats.Inc("ev.probe_via_check." + kind)
+	if periodic {
+		w.stats.Inc("ev.probe_periodic_cycle")
+	}
 	switch kind {
 	case "sample":
 		w.st.Emit(fmt.Sprintf("sample %d %d %d", t, d, int64(lat)), VRecover(func() string { return w.afterTell(t, d) }))
+		w.mirrorTold(t, d, "sample %d %d "+strconv.FormatInt(int64(lat), 10))
 		w.syncPens(d)
 	case "told":
 		w.syncPens(d) // the penalty moves before the sets are told
@@ -265,6 +316,7 @@ func (w *c15World) probe(t, d int, outcome int) {
 			a = "1"
 		}
 		w.st.Emit(fmt.Sprintf("told %d %d %s", t, d, a), VRecover(func() string { return w.afterTell(t, d) }))
+		w.mirrorTold(t, d, "told %d %d "+a)
 	default:
 		// skip: nothing may have changed; `same` asks the model to print the domain's set again
 		w.st.Emit(fmt.Sprintf("same %d", t), VRecover(func() string {
@@ -273,6 +325,14 @@ func (w *c15World) probe(t, d int, outcome int) {
 			}
 			return w.takeCbs() + " " + w.setDump(t)
 		}))
+		w.mirror(d, func(s *c15World, d2 int) {
+			s.st.Emit(fmt.Sprintf("same %d", t), VRecover(func() string {
+				if s.g == nil {
+					return "nogroup"
+				}
+				return s.takeCbs() + " " + s.setDump(t)
+			}))
+		})
 	}
 }
 
@@ -282,10 +342,10 @@ func (w *c15World) probe(t, d int, outcome int) {
 // c15SnapString renders the six collections of a health snapshot in type order as
 // `alive;movingAverage;l1,l2,...` (latencies oldest first); ok=false when the TCP-DNS alias slots
 // disagree with the TCP slots (never the case for snapshots taken from a dialer).
-func c15SnapString(snap dialer.DialerHealthSnapshot) (string, bool) {
+func c15SnapString(types [6]*dialer.NetworkType, snap dialer.DialerHealthSnapshot) (string, bool) {
 	parts := make([]string, 6)
 	for t := 0; t < 6; t++ {
-		c := snap.Collections[t+2]
+		c := snap.Collections[types[t].Index()]
 		ls := c.Latencies.Latencies
 		if len(ls) >= 10 && c.Latencies.Head > 0 && c.Latencies.Head < len(ls) {
 			ls = append(append([]time.Duration{}, ls[c.Latencies.Head:]...), ls[:c.Latencies.Head]...)
@@ -296,7 +356,17 @@ func c15SnapString(snap dialer.DialerHealthSnapshot) (string, bool) {
 		}
 		parts[t] = fmt.Sprintf("%s;%d;%s", c15B(c.Alive), int64(c.MovingAverage), strings.Join(xs, ","))
 	}
-	ok := snap.Collections[0].Alive == snap.Collections[4].Alive && snap.Collections[1].Alive == snap.Collections[5].Alive
+	// alias slots (TCP-DNS) must agree with the TCP slots they alias, whatever their numbers are
+	ok := true
+	for _, al := range []int{dialer.IdxDnsTcp4, dialer.IdxDnsTcp6} {
+		tcp := types[2].Index()
+		if al == dialer.IdxDnsTcp6 {
+			tcp = types[3].Index()
+		}
+		if al != tcp && snap.Collections[al].Alive != snap.Collections[tcp].Alive {
+			ok = false
+		}
+	}
 	return strings.Join(parts, "|"), ok
 }
 
@@ -304,7 +374,7 @@ func (w *c15World) restore(d int, snap dialer.DialerHealthSnapshot, kind string)
 	if w.g == nil {
 		return
 	}
-	str, ok := c15SnapString(snap)
+	str, ok := c15SnapString(w.types, snap)
 	if !ok {
 		return
 	}
@@ -314,6 +384,14 @@ func (w *c15World) restore(d int, snap dialer.DialerHealthSnapshot, kind string)
 		return w.takeCbs() + " " + w.groupDump()
 	})
 	w.st.Emit(fmt.Sprintf("restore %d %s", d, str), out)
+	w.mirror(d, func(s *c15World, d2 int) {
+		if s.g != nil {
+			s.st.Emit(fmt.Sprintf("restore %d %s", d2, str), VRecover(func() string {
+				s.lastBest = map[int]string{}
+				return s.takeCbs() + " " + s.groupDump()
+			}))
+		}
+	})
 	w.syncPens(d)
 	w.stats.Inc("reload.restore." + kind)
 }
@@ -362,12 +440,28 @@ func (w *c15World) floor(fb ReloadSelectionFallback) {
 			xs[t] = "-"
 		}
 	}
+	// which (domain, node) flags were down before: MarkAliveForReloadFallback raises exactly those it
+	// touches (the floor acts only on empty sets), and the second group must be told about them too
+	var before [6][]bool
+	for t := 0; t < 6; t++ {
+		before[t] = make([]bool, w.n)
+		for d := 0; d < w.n; d++ {
+			before[t][d] = w.dialers[d].MustGetAlive(w.types[t])
+		}
+	}
 	out := VRecover(func() string {
 		w.g.EnsureReloadSelectionFloor(fb)
 		w.lastBest = map[int]string{}
 		return w.takeCbs() + " " + w.groupDump()
 	})
 	w.st.Emit("floor "+strings.Join(xs, ","), out)
+	for t := 0; t < 6; t++ {
+		for d := 0; d < w.n; d++ {
+			if !before[t][d] && w.dialers[d].MustGetAlive(w.types[t]) {
+				w.mirrorTold(t, d, "told %d %d 1")
+			}
+		}
+	}
 	for d := 0; d < w.n; d++ {
 		w.syncPens(d)
 	}
@@ -401,7 +495,7 @@ func (w *c15World) fail(t, d int, force, traffic bool) {
 	var alive bool
 	var inform func()
 	pre := VRecover(func() string {
-		alive, _, inform = dialer.VerifC15Fail(w.dialers[d], w.types[t], force, traffic)
+		alive, inform = dialer.VerifC15Fail(w.dialers[d], w.types[t], force, traffic)
 		return ""
 	})
 	if pre != "" {
@@ -418,6 +512,7 @@ func (w *c15World) fail(t, d int, force, traffic bool) {
 		return w.afterTell(t, d)
 	})
 	w.st.Emit(fmt.Sprintf("told %d %d %s", t, d, a), out)
+	w.mirrorTold(t, d, "told %d %d "+a)
 }
 
 func (w *c15World) traffic(t, d int) {
@@ -428,6 +523,7 @@ func (w *c15World) traffic(t, d int) {
 	})
 	if told || strings.HasPrefix(out, "crash:") {
 		w.st.Emit(fmt.Sprintf("told %d %d 1", t, d), out)
+		w.mirrorTold(t, d, "told %d %d 1")
 		w.syncPens(d)
 		w.stats.Inc("ev.traffic_revival")
 	} else {
@@ -437,11 +533,19 @@ func (w *c15World) traffic(t, d int) {
 
 func (w *c15World) setPolicy(pol consts.DialerSelectionPolicy, fixedIdx int) {
 	out := VRecover(func() string {
-		w.g.SetSelectionPolicy(DialerSelectionPolicy{Policy: pol, FixedIndex: fixedIdx})
+		w.g.SetSelectionPolicy(c15ParsePolicy(pol, fixedIdx))
 		w.policy = pol
 		return w.takeCbs() + " " + w.groupDump()
 	})
 	w.st.Emit(fmt.Sprintf("policy %s %d", pol, fixedIdx), out)
+}
+
+// dialer.Timeout (the latency of the last resort) prints as `T`, whatever its value
+func c15Lat(l time.Duration) string {
+	if l == dialer.Timeout {
+		return "T"
+	}
+	return strconv.FormatInt(int64(l), 10)
 }
 
 func c15B(b bool) string {
@@ -481,7 +585,7 @@ func (w *c15World) sel(udp, ip6, isDns bool, dom int, strict bool, excl int, via
 	if w.policy == consts.DialerSelectionPolicy_Random {
 		draws = 6
 	}
-	want := nt.Index() - 2
+	want := w.typeIdx(nt)
 	out := VRecover(func() string {
 		seen := map[string]bool{}
 		for i := 0; i < draws; i++ {
@@ -518,10 +622,10 @@ func (w *c15World) sel(udp, ip6, isDns bool, dom int, strict bool, excl int, via
 			di := w.dialerIdx(d)
 			si := want
 			if via == 0 {
-				si = selType.Index() - 2
-				seen[fmt.Sprintf("%d:%d:%d", di, int64(lat), si)] = true
+				si = w.typeIdx(selType)
+				seen[fmt.Sprintf("%d:%s:%d", di, c15Lat(lat), si)] = true
 			} else {
-				seen[fmt.Sprintf("%d:%d:*", di, int64(lat))] = true
+				seen[fmt.Sprintf("%d:%s:*", di, c15Lat(lat))] = true
 			}
 			w.lastSel = di
 			if i == 0 {
@@ -723,7 +827,7 @@ func (w *c15World) event(r *VRand, tol int64, fam int) {
 		w.stats.Inc("ev.sample")
 	case x < 46:
 		// through the real Dialer.Check: success / "no applicable IP" skip / error (two attempts)
-		w.probe(t, d, []int{0, 0, 0, 1, 2}[r.Intn(5)])
+		w.probe(t, d, []int{0, 0, 0, 1, 2}[r.Intn(5)], r.Chance(0.6), r.Chance(0.3))
 	case x < 72:
 		w.fail(t, d, true, true)
 		w.stats.Inc("ev.forced_death")
@@ -791,7 +895,7 @@ func (w *c15World) selection(r *VRand, fam int) {
 	w.sel(udp, ip6, isDns, dom, r.Chance(0.5), excl, via)
 }
 
-func c15Scenario(r *VRand, st *VStream, stats *VStats, nOps int, outOfBounds bool) {
+func c15Scenario(r *VRand, st *VStream, st2 *VStream, stats *VStats, nOps int, outOfBounds bool) {
 	n := c15PickN(r)
 	if outOfBounds && n == 0 {
 		n = 2
@@ -803,6 +907,31 @@ func c15Scenario(r *VRand, st *VStream, stats *VStats, nOps int, outOfBounds boo
 	}
 	tol := c15PickTol(r, big)
 	fam := r.Intn(2)
+	// a second group over an overlapping subset of the dialers (plus, sometimes, one of its own)
+	if st2 != nil && n >= 2 && r.Chance(0.3) {
+		sec := &c15World{st: st2, stats: NewVStats(), lastSel: -1, lastBest: map[int]string{}, types: w.types, foreign: w.foreign, big: big}
+		o := *w.opt
+		sec.opt = &o
+		w.secIdx = map[int]int{}
+		for d := 0; d < n; d++ {
+			if r.Chance(0.6) || (d == n-1 && len(sec.dialers) == 0) {
+				w.secIdx[d] = len(sec.dialers)
+				sec.dialers = append(sec.dialers, w.dialers[d])
+			}
+		}
+		if r.Chance(0.3) {
+			sec.dialers = append(sec.dialers, c15NewDialer(sec.opt, "own"))
+			sec.ownIdx = len(sec.dialers) - 1
+		} else {
+			sec.ownIdx = -1
+		}
+		sec.n = len(sec.dialers)
+		sec.pens = make([][6]int64, sec.n)
+		st2.Emit(fmt.Sprintf("world %d", sec.n), "ok")
+		w.sec = sec
+		stats.Inc("scenario.second_group_sharing_dialers")
+		stats.Add("scenario.shared_dialers", len(w.secIdx))
+	}
 	stats.Inc(fmt.Sprintf("scenario.n=%d", n))
 	stats.Inc(fmt.Sprintf("scenario.tol=%d", tol))
 	// dialers may already carry history when the group is created
@@ -825,7 +954,29 @@ func c15Scenario(r *VRand, st *VStream, stats *VStats, nOps int, outOfBounds boo
 	pol := c15PickPolicy(r)
 	stats.Inc("scenario.policy=" + string(pol))
 	w.makeGroup(tol, pol, w.pickFixed(r), offs)
+	if s := w.sec; s != nil {
+		offs2 := make([]int64, s.n)
+		for i := range offs2 {
+			offs2[i] = c15PickOff(r, tol)
+		}
+		s.makeGroup(c15PickTol(r, big), c15PickPolicy(r), s.pickFixed(r), offs2)
+	}
 	for i := 0; i < nOps; i++ {
+		if s := w.sec; s != nil && r.Chance(0.15) {
+			// the second group's own life: policy switches, selections, events on its own dialer
+			switch y := r.Intn(10); {
+			case y < 2:
+				s.setPolicy(c15PickPolicy(r), s.pickFixed(r))
+			case y < 8:
+				s.selection(r, fam)
+			default:
+				if s.ownIdx >= 0 {
+					s.sample(s.pickType(r, fam), s.ownIdx, c15PickLat(r, tol))
+				}
+			}
+			stats.Inc("op.on_second_group")
+			continue
+		}
 		switch x := r.Intn(100); {
 		case x < 58:
 			w.event(r, tol, fam)
@@ -846,13 +997,17 @@ func c15Scenario(r *VRand, st *VStream, stats *VStats, nOps int, outOfBounds boo
 		}
 	}
 	_ = w.g.Close()
+	if w.sec != nil {
+		_ = w.sec.g.Close()
+	}
 }
 
 func TestVerifC15(t *testing.T) {
 	r := NewVRand(VSeed())
 	stats := NewVStats()
 	st := VOpenStream("c15")
-	defer func() { st.Close(); stats.Write("c15") }()
+	stg2 := VOpenStream("c15g2") // the second groups of the scenarios that have one (own model world)
+	defer func() { st.Close(); stg2.Close(); stats.Write("c15") }()
 
 	nScen, maxOps := 260, 70
 	if VThorough() {
@@ -861,14 +1016,14 @@ func TestVerifC15(t *testing.T) {
 	nScen = VEnvInt("VERIF_C15_SCENARIOS", nScen)
 	for i := 0; i < nScen; i++ {
 		nOps := 20 + r.Intn(maxOps)
-		c15Scenario(r, st, stats, nOps, false)
+		c15Scenario(r, st, stg2, stats, nOps, false)
 	}
 	stats.Add("ops", st.N)
 
 	// separate stream: one offset at/around time.Hour (the former sentinel of the minimum scans)
 	st2 := VOpenStream("c15oob")
 	for i := 0; i < nScen/10+3; i++ {
-		c15Scenario(r, st2, stats, 30, true)
+		c15Scenario(r, st2, nil, stats, 30, true)
 	}
 	st2.Close()
 	stats.Add("ops_oob", st2.N)
